@@ -4,6 +4,13 @@
 // is offered to a node under test that is a real chain.BlockChain (chain.NewBlockChain: DPoVP engine, validator,
 // TxGuard, initTxPool reload at restart).  Logged: what the miner packaged, the validator's verdict, and the number of
 // times each payload took effect on the branch (recipient balance / amount) in the builder's and the node's state.
+//
+// Carriers: the candidate list is handed to the miner in the carrier encoding of the step (txguard/carrier.go: box payloads with
+// a forged / cross-named / missing "hash" member, junk gasUsed, unknown members, other member order and white space).  The
+// node's own miner re-marshals a box payload after executing it, so a block "as mined" carries canonical payloads; a block
+// built by anybody else need not.  The offered block is therefore the mined block with the box payloads put back as they
+// were handed in, whenever its transaction root still matches its header (logged: crafted) - on the unchanged code the
+// identity of a box does not depend on how its payload is written, so that is always the case.
 package replayprot
 
 import (
@@ -39,11 +46,14 @@ var (
 	lemo  = new(big.Int).Exp(big.NewInt(10), big.NewInt(18), nil)
 	amtT  = new(big.Int).Mul(big.NewInt(3), lemo)
 	amtU  = new(big.Int).Mul(big.NewInt(5), lemo)
+	amtR  = new(big.Int).Mul(big.NewInt(7), lemo)
 	rcptT = common.HexToAddress("0x0000000000000000000000000000000000c04a01")
 	rcptU = common.HexToAddress("0x0000000000000000000000000000000000c04a02")
+	rcptR = common.HexToAddress("0x0000000000000000000000000000000000c04a03")
 )
 
-// Universe builds t, t2 (re-encoded t), u, b=[t], bb=[t,t], bu=[t,u]; all signed by the founder (who holds all LEMO).
+// Universe builds t, t2 (re-encoded t), u, the boxes b=[t], bb=[t,t], bu=[t,u] and w=[t] (another box around the same t), each
+// box in every carrier encoding; all signed by the founder (who holds all LEMO).
 func Universe(w *node.World, expT, expU uint64) *txguard.Universe {
 	u := txguard.NewUniverse()
 	t := txguard.Transfer(w.FounderKey, rcptT, amtT, expT, node.ChainID, "t")
@@ -51,28 +61,51 @@ func Universe(w *node.World, expT, expU uint64) *txguard.Universe {
 	u.Add("t", t)
 	u.Add("t2", txguard.Reencode(t))
 	u.Add("u", tu)
-	u.Add("b", txguard.Box(w.FounderKey, expT, node.ChainID, "b", t), "t")
-	u.Add("bb", txguard.Box(w.FounderKey, expT, node.ChainID, "bb", t, t), "t", "t")
-	u.Add("bu", txguard.Box(w.FounderKey, expT, node.ChainID, "bu", t, tu), "t", "u")
+	u.SetCross("t", "u")
+	u.AddBox("b", w.FounderKey, expT, node.ChainID, txguard.AllEncs, "t")
+	u.AddBox("bb", w.FounderKey, expT, node.ChainID, txguard.AllEncs, "t", "t")
+	u.AddBox("bu", w.FounderKey, expT, node.ChainID, txguard.AllEncs, "t", "u")
+	u.AddBox("w", w.FounderKey, expT, node.ChainID, txguard.AllEncs, "t")
+	// r: a reimbursement ("gasless") transfer, signed once by its sender; r2: the same sender-signed transaction priced and signed
+	// again by its gas payer (the founder plays both roles: he is the only account with a balance)
+	rr := txguard.Repriced(w.FounderKey, w.FounderKey, rcptR, amtR, expT, node.ChainID, "r", 50000, 50001)
+	u.Add("r", rr[0])
+	u.Add("r2", rr[1])
+	// t3: t with a signature appended by somebody else
+	u.Add("t3", txguard.ExtraSig(t, w.Outsider))
 	return u
 }
 
-// IDOf maps a real transaction (by hash) to its id.
-func IDOf(u *txguard.Universe, tx *types.Transaction) string {
-	for _, id := range u.IDs {
-		if u.Tx[id].Hash() == tx.Hash() {
-			return id
+// IDs maps real transactions to their ids by their FIELDS (never by tx.Hash(): the identity the code gives a transaction is
+// what is being checked).
+func IDs(u *txguard.Universe, txs types.Transactions) []string { return u.Idents(txs) }
+
+// Craft returns what a peer receives when the miner of blk left the box payloads as they were handed to him (cand, the
+// candidate list in its carrier encoding): the block with those payloads, decoded from its RLP encoding.  crafted = false
+// (and the block as mined) when the transaction root would no longer match the header.
+func Craft(u *txguard.Universe, blk *types.Block, cand types.Transactions) (*types.Block, bool) {
+	raw := map[string][]byte{}
+	for _, c := range cand {
+		if c.Type() == params.BoxTx {
+			raw[u.Ident(c)] = c.Data()
 		}
 	}
-	return "unknown:" + tx.Hash().Hex()
-}
-
-func IDs(u *txguard.Universe, txs types.Transactions) []string {
-	out := make([]string, 0, len(txs))
-	for _, tx := range txs {
-		out = append(out, IDOf(u, tx))
+	nb := node.Copy(blk, nil)
+	changed := false
+	for _, tx := range nb.Txs {
+		if d, ok := raw[u.Ident(tx)]; ok && tx.Type() == params.BoxTx && string(d) != string(tx.Data()) {
+			tx.SetData(d)
+			changed = true
+		}
 	}
-	return out
+	if !changed {
+		return nb, false
+	}
+	nb = node.Copy(nb, nil) // fresh objects: nothing cached from the mined payloads
+	if nb.Txs.MerkleRootSha() != nb.TxRoot() {
+		return node.Copy(blk, nil), false
+	}
+	return nb, true
 }
 
 // Counts reads, in the state of block h, how many times the payloads t and u took effect: recipient balance / amount.
@@ -83,7 +116,7 @@ func Counts(db protocol.ChainDB, h common.Hash) map[string]int64 {
 		id   string
 		addr common.Address
 		amt  *big.Int
-	}{{"t", rcptT, amtT}, {"u", rcptU, amtU}} {
+	}{{"t", rcptT, amtT}, {"u", rcptU, amtU}, {"r", rcptR, amtR}} {
 		q, r := new(big.Int).QuoRem(am.GetAccount(x.addr).GetBalance(), x.amt, new(big.Int))
 		if r.Sign() != 0 {
 			engine.Failf("recipient balance of %s is not a multiple of the amount", x.id)
@@ -99,8 +132,9 @@ func Counts(db protocol.ChainDB, h common.Hash) map[string]int64 {
 type NUT struct {
 	W   *node.World
 	Dir string
-	DB  *store.ChainDatabase
-	BC  *chain.BlockChain
+	DB   *store.ChainDatabase
+	BC   *chain.BlockChain
+	Pool *txpool.TxPool
 }
 
 // OpenNUT creates (or reopens) the node exactly as main/node does: store, genesis, deputy manager, chain.NewBlockChain.
@@ -114,7 +148,8 @@ func OpenNUT(w *node.World, dir string) *NUT {
 		chain.SetupGenesisBlock(n.DB, w.Genesis())
 	}
 	dm := deputynode.NewManager(w.N, n.DB)
-	bc, err := chain.NewBlockChain(chain.Config{ChainID: node.ChainID, MineTimeout: w.TimeoutMs}, dm, n.DB, flag.CmdFlags{}, txpool.NewTxPool())
+	n.Pool = txpool.NewTxPool()
+	bc, err := chain.NewBlockChain(chain.Config{ChainID: node.ChainID, MineTimeout: w.TimeoutMs}, dm, n.DB, flag.CmdFlags{}, n.Pool)
 	if err != nil {
 		engine.Failf("NewBlockChain: %v", err)
 	}
@@ -169,8 +204,11 @@ func BuildAt(b *node.Node, parent *types.Block, tm uint32, txs types.Transaction
 }
 
 type built struct {
-	blk       *types.Block
+	blk       *types.Block // as mined
+	off       *types.Block // as offered (Craft)
+	crafted   bool
 	got, disc []string
+	filed     []string
 	mcnt      map[string]int64
 }
 
@@ -215,7 +253,7 @@ func (a *adapter) Reset(init map[string]tla.Value) (engine.Fields, error) {
 	e := init["exp"]
 	if a.u == nil || a.ukey != e.String() {
 		g := uint64(a.w.GenesisTime)
-		for _, id := range []string{"t2", "b", "bb", "bu"} {
+		for _, id := range []string{"t2", "b", "bb", "bu", "w", "r", "r2", "t3"} {
 			if e.F(id).I() != e.F("t").I() {
 				engine.Failf("the spec must give %s the expiration of t", id)
 			}
@@ -233,7 +271,7 @@ func (a *adapter) Reset(init map[string]tla.Value) (engine.Fields, error) {
 	for _, id := range a.u.IDs {
 		exp[id] = a.u.Exp[id] - int64(a.w.GenesisTime)
 	}
-	fl := engine.Fields{"exp": exp, "subs": a.u.Subs, "payload": a.u.Payload, "life": params.MaxTxLifeTime,
+	fl := engine.Fields{"exp": exp, "subs": a.u.Subs, "payload": a.u.Payload, "how": a.u.How, "life": params.MaxTxLifeTime,
 		"cnt": Counts(a.nut.DB, a.builder.Genesis.Hash())}
 	a.project(fl)
 	return fl, nil
@@ -260,25 +298,31 @@ func (a *adapter) Apply(s engine.Step) (engine.Fields, error) {
 	switch s.Act.Name {
 	case "Offer":
 		p, tm := arg[0].I(), arg[1].I()
-		req := arg[2].Strs()
+		req, enc := arg[2].Strs(), arg[3].S()
 		id := len(a.blocks) + 1
 		fl["id"] = id
 		par := a.blocks[p-1]
 		if par == nil {
 			engine.Failf("parent %d was never built", p)
 		}
-		key := fmt.Sprintf("%s/%d/%s", par.Hash().Hex(), tm, strings.Join(req, ","))
+		key := fmt.Sprintf("%s/%d/%s/%s", par.Hash().Hex(), tm, strings.Join(req, ","), enc)
 		bt, ok := a.cache[key]
 		if !ok {
 			// the MINER path: real BlockAssembler.MineBlock -> TxProcessor.ApplyTxs on the candidate list
-			blk, invalid := BuildAt(a.builder, par, uint32(tm), a.u.Txs(req), fmt.Sprintf("c04-%d", len(a.cache)))
+			cand := a.u.Carried(req, enc)
+			blk, invalid := BuildAt(a.builder, par, uint32(tm), a.u.Carried(req, enc), fmt.Sprintf("c04-%d", len(a.cache)))
 			bt = &built{blk: blk, got: IDs(a.u, blk.Txs), disc: IDs(a.u, invalid), mcnt: Counts(a.builder.DB, blk.Hash())}
+			bt.off = node.Copy(blk, nil)
+			if enc != txguard.Canon { // canonical = the block exactly as the node's own miner made it
+				bt.off, bt.crafted = Craft(a.u, blk, cand)
+			}
+			bt.filed = a.u.Filed(node.Copy(bt.off, nil).Txs)
 			a.cache[key] = bt
 		}
 		a.blocks = append(a.blocks, bt.blk)
-		fl["got"], fl["discarded"], fl["mcnt"] = bt.got, bt.disc, bt.mcnt
+		fl["got"], fl["discarded"], fl["mcnt"], fl["crafted"], fl["filed"] = bt.got, bt.disc, bt.mcnt, bt.crafted, bt.filed
 		// the VALIDATOR path: what a peer receives, offered to the real node
-		err := a.nut.BC.InsertBlock(node.Copy(bt.blk, nil))
+		err := a.nut.BC.InsertBlock(node.Copy(bt.off, nil))
 		fl["ok"] = err == nil
 		if err != nil {
 			fl["err"] = err.Error()
